@@ -820,6 +820,48 @@ impl Family for Lifecycles {
     }
 }
 
+
+/// valid UTF-8 text with a multi-byte character at every byte offset (and the same text cut
+/// inside that character): slicing at a fixed offset must not panic
+struct Utf8Texts;
+impl Family for Utf8Texts {
+    fn name(&self) -> String {
+        "texts-with-multi-byte-characters-at-every-offset".into()
+    }
+    fn len(&self) -> u64 {
+        super::c02::Utf8Offsets::texts().len() as u64 * 3
+    }
+    fn run(&self, idx: u64, st: &mut Stats) -> Result<(), Violation> {
+        let (cmd, t) = super::c02::Utf8Offsets::texts()[(idx / 3) as usize].clone();
+        st.nontrivial += 1;
+        st.bump("utf8_texts");
+        let mut bytes = t.clone().into_bytes();
+        match idx % 3 {
+            1 => {
+                // cut inside the first multi-byte character
+                if let Some(p) = bytes.iter().position(|b| *b >= 0x80) {
+                    bytes.truncate(p + 1);
+                }
+            }
+            2 => {
+                // a stray continuation byte in front of it
+                if let Some(p) = bytes.iter().position(|b| *b >= 0x80) {
+                    bytes.insert(p, 0xa0);
+                }
+            }
+            _ => {}
+        }
+        let mut s = prefix(1);
+        s.extend_from_slice(&frame(0, &with_byte(cmd, &bytes)).0);
+        s.extend_from_slice(&frame(0, &[COM_PING]).0);
+        judge(s, &format!("command {:#04x} with text {:?}", cmd, String::from_utf8_lossy(&bytes)), st)
+    }
+    fn describe(&self, idx: u64) -> J {
+        let (cmd, t) = super::c02::Utf8Offsets::texts()[(idx / 3) as usize].clone();
+        json!({"command": cmd, "text": t, "variant": idx % 3})
+    }
+}
+
 pub fn build(quick: bool) -> Check {
     let mut families: Vec<Box<dyn Family>> = Vec::new();
     for l in 1..=(if quick { 5 } else { 7 }) {
@@ -862,6 +904,7 @@ pub fn build(quick: bool) -> Check {
     for d in 1..=(if quick { 4 } else { 6 }) {
         families.push(Box::new(Lifecycles { depth: d }));
     }
+    families.push(Box::new(Utf8Texts));
     families.push(Box::new(LenencExtremes));
     families.push(Box::new(LargeInputs::new(if quick { &[MAXP, MAXP + 7] } else { &[MAXP - 1, MAXP, MAXP + 7, 2 * MAXP, 2 * MAXP + 7] })));
     families.push(Box::new(FragmentIds {
@@ -870,7 +913,7 @@ pub fn build(quick: bool) -> Check {
     Check {
         id: "C20",
         level: "model_checking",
-        rule: "client byte strings: all raw strings of length <= 5/7 over a 13-symbol alphabet of command and marker bytes (after handshake+PREPARE, and as the handshake itself); all framed payloads of length <= 2/3 over all 256 byte values; COM_STMT_EXECUTE parameter blocks (4 bitmaps x 3 flags x 256 type codes x unsigned x values of <= 3 bytes over 6 marker bytes, with and without a preceding valid bind; 1/2/9 declared parameters); every prefix of well-formed bind and reuse blocks x NULL bitmaps x pending long data x earlier bind; for 5 valid conversations and 3 handshake forms every single-byte substitution by every value (this includes every sequence id 0..255 and every length-field value on every packet), every truncation, deletion and duplication; two-fragment requests with every pair of fragment ids from a boundary set; variable-length parameter values behind every length-prefix form announcing 0..2^64-1 bytes (and every length byte for the temporal types) with 0..300 bytes present; requests of 2^24-1 bytes and more, well-formed or with a missing / lying continuation, under a read boundary at every position around each packet header and the end of the stream; every statement lifecycle of <= 4 (thorough: 6) actions over re-prepares with 1/2/3 parameters, bind/reuse executions, long data and close, encoded by a client that follows the re-prepares and by one that does not; an SSL request (to a shim that offers TLS) followed by anything but a TLS handshake: every 1- (thorough: 2-) byte string, TLS record headers of every content type / version / length class with partial bodies, a plaintext handshake response, a recorded ClientHello with every byte damaged five ways and every truncation - the shim must never be reached. Oracle: run_on returns (Ok or Err) without panicking and within 200000 transport operations; flushed output is well-framed. Non-trivial = input differs from a valid conversation.".into(),
+        rule: "client byte strings: all raw strings of length <= 5/7 over a 13-symbol alphabet of command and marker bytes (after handshake+PREPARE, and as the handshake itself); all framed payloads of length <= 2/3 over all 256 byte values; COM_STMT_EXECUTE parameter blocks (4 bitmaps x 3 flags x 256 type codes x unsigned x values of <= 3 bytes over 6 marker bytes, with and without a preceding valid bind; 1/2/9 declared parameters); every prefix of well-formed bind and reuse blocks x NULL bitmaps x pending long data x earlier bind; for 5 valid conversations and 3 handshake forms every single-byte substitution by every value (this includes every sequence id 0..255 and every length-field value on every packet), every truncation, deletion and duplication; two-fragment requests with every pair of fragment ids from a boundary set; variable-length parameter values behind every length-prefix form announcing 0..2^64-1 bytes (and every length byte for the temporal types) with 0..300 bytes present; requests of 2^24-1 bytes and more, well-formed or with a missing / lying continuation, under a read boundary at every position around each packet header and the end of the stream; every statement lifecycle of <= 4 (thorough: 6) actions over re-prepares with 1/2/3 parameters, bind/reuse executions, long data and close, encoded by a client that follows the re-prepares and by one that does not; query / prepare / init-db / USE texts with a multi-byte character at every byte offset 0..12, whole, cut inside the character, and behind a stray continuation byte; an SSL request (to a shim that offers TLS) followed by anything but a TLS handshake: every 1- (thorough: 2-) byte string, TLS record headers of every content type / version / length class with partial bodies, a plaintext handshake response, a recorded ClientHello with every byte damaged five ways and every truncation - the shim must never be reached. Oracle: run_on returns (Ok or Err) without panicking and within 200000 transport operations; flushed output is well-framed. Non-trivial = input differs from a valid conversation.".into(),
         assumptions: vec![
             "random bytes are not used as a deciding step (sampling is outside this family)".into(),
             "the shim iterates all parameters and reads them with into_inner(); the panicking From<Value> conversions are the shim author's calls, not run_on's".into(),
@@ -879,6 +922,6 @@ pub fn build(quick: bool) -> Check {
         exhaustive: true,
         caps_hit: vec![],
         families,
-        required: vec!["lifecycle_inputs", "tls_garbage_cases", "length_prefix_cases", "large_inputs", "outcome_ok", "outcome_err", "executes_reaching_the_shim", "sequence_id_mutations", "length_field_mutations", "out_of_order_fragments", "block_prefixes"],
+        required: vec!["utf8_texts", "lifecycle_inputs", "tls_garbage_cases", "length_prefix_cases", "large_inputs", "outcome_ok", "outcome_err", "executes_reaching_the_shim", "sequence_id_mutations", "length_field_mutations", "out_of_order_fragments", "block_prefixes"],
     }
 }
